@@ -398,7 +398,16 @@ func rnsMachine(rt *rapid.T, c *chain.Chain, wts rnsWeights, oracle func(*rnsWor
 		},
 		"init": func(rt *rapid.T) {
 			s := w.drawAcc(rt, "signer")
+			before := w.names()
 			check(w.run("init", s, "", rnstypes.NewMsgInit(s.Bech), nil))
+			// the free name it hands out is a name like any other from now on: others will try to register over it, buy it,
+			// bid on it, file records under it
+			for _, k := range sortedNameKeys(w.names()) {
+				if _, had := before[k]; !had && len(w.canon) < 8 {
+					w.canon = append(w.canon, k)
+					w.logf("free name %s joins the names in play", k)
+				}
+			}
 		},
 		"primary": func(rt *rapid.T) {
 			key := w.drawCanon(rt)
